@@ -260,6 +260,7 @@ Proof.
     revert Hk. destruct (get t (itabs s)) as [tb|]; intro Hk; cbn [option_map]; [|reflexivity].
     unfold abs_tbl at 1. cbn [cols].
     revert Hk. destruct (has_idx i (iidx s)); intro Hk; [reflexivity|]. cbn [negb andb orb] in *.
+    revert Hk. destruct (in_files i (ifiles s)); intro Hk; [discriminate|].
     revert Hk. destruct (has_col c (icols tb)); intro Hk; [|discriminate]. reflexivity.
   - (* DropIndex *)
     rewrite sidx_abs. destruct (has_idx i (iidx s)); reflexivity.
@@ -292,7 +293,8 @@ Proof.
     destruct (i_on t (i_drop_col c ex) s) as [s' ok]. cbn [fst] in *. destruct ok; exact H.
   - apply on_clean; [|exact Hc]. unfold i_rename_col. keep_mis.
   - apply on_clean; [|exact Hc]. keep_mis.
-  - destruct (get t (itabs s)); [|exact Hc]. destruct (has_idx i (iidx s)); exact Hc.
+  - destruct (get t (itabs s)); [|exact Hc]. destruct (has_idx i (iidx s)); [exact Hc|].
+    destruct (in_files i (ifiles s)); exact Hc.
   - destruct (has_idx i (iidx s)); exact Hc.
   - exact Hc.
 Qed.
@@ -381,7 +383,7 @@ Lemma truncate_then_insert_visible_l : forall s t tb b r,
   i_obs1 (fst (i_step (fst (i_step s (Truncate t b))) (Insert t r))) t = TRows (map cname (icols tb)) [r].
 Proof.
   intros s t tb b r Hc Hg Hf.
-  assert (E1 : fst (i_step s (Truncate t b)) = mkIS (put t (mkI (icols tb) [] (imis tb) false) (itabs s)) (iidx s)).
+  assert (E1 : fst (i_step s (Truncate t b)) = mkIS (put t (mkI (icols tb) [] (imis tb) false) (itabs s)) (iidx s) (ifiles s)).
   { cbn [i_step]. unfold i_on. rewrite Hg. reflexivity. }
   rewrite E1.
   pose proof (get_put_same _ _ t tb (mkI (icols tb) [] (imis tb) false) Hg) as Hg2.
